@@ -134,6 +134,9 @@ pub fn run_intruder(plan: world::IntruderPlan) {
         // names may have moved under the running instance's open handles (the second instance
         // counted them as open all along and has closed its own)
         outer.inodes = ino.clone();
+        // its locks died with it
+        let me = outer.pid;
+        outer.inodes.flocks.retain(|_, (p, _, _)| *p == me);
         // a file the running instance holds open that the second one unlinked or replaced lives
         // on, nameless, for those handles
         for (i, c) in &r.orphans_after {
@@ -526,6 +529,9 @@ fn execute_once(
         fresh.stats.shuttle_runs = 1;
         fresh.under_shuttle = true;
     }
+    if std::env::var_os("GENSIM_DEBUG_RUNS").is_some() {
+        eprintln!("RUN label={:?} hard={:?} shuttle={}", LABEL.with(|c| c.borrow().clone()), fresh.hard, under_shuttle);
+    }
     world::install(fresh);
     enter_run(gen);
     CURRENT.with(|c| c.set(Some((gen, profile, under_shuttle))));
@@ -651,7 +657,7 @@ fn assemble(gen: Gen, profile: Option<Profile>, under_shuttle: bool, mut w: Worl
         panic,
         exit_code,
         hard_fired: w.hard_fired,
-        stalled: w.stalled || w.missing_program || w.fd_exhausted || (w.gating_fault && w.hard_fired) || w.write_faulted,
+        stalled: w.stalled || w.missing_program || w.fd_exhausted || (w.gating_fault && w.hard_fired) || w.write_faulted || w.stat_faulted,
         under_shuttle,
         sched_digest: w.sched_digest.0,
         diverged: w.diverged,
@@ -686,6 +692,10 @@ pub fn random_mode(seed: u64, gen: Gen, run: u64) -> Mode {
     let mut aux3 = Rng::new(run_seed(seed, gen.stream() + 64, run));
     if !profile.read_fault && aux3.chance(1, 8) {
         profile.write_fault = aux3.next_u64() | 1;
+    }
+    // (round 13) one metadata query fails with EIO: same stream, drawn after everything else
+    if !profile.read_fault && profile.write_fault == 0 && aux3.chance(1, 7) {
+        profile.stat_fault = aux3.next_u64() | 1;
     }
     Mode::Random { rng, aux, profile }
 }
@@ -1428,6 +1438,47 @@ mod tests {
         });
         assert!(r.is_ok(), "{:?}", world::PANIC_INFO.with(|p| p.borrow().clone()));
         assert_eq!(w.out, "0");
+    }
+
+    #[test]
+    fn panic_of_the_scope_owner_with_spinning_workers_and_locking_destructors_is_a_failed_run_not_an_abort() {
+        // seeded r13a under a listing error: the closure of `thread::scope` panics while workers
+        // spin on a queue; its destructors take the queue's lock during the unwinding
+        struct Flush<'a>(&'a sstd::sync::Mutex<Vec<u32>>);
+        impl Drop for Flush<'_> {
+            fn drop(&mut self) {
+                self.0.lock().unwrap().push(1);
+            }
+        }
+        struct Close<'a>(&'a sstd::sync::atomic::AtomicBool);
+        impl Drop for Close<'_> {
+            fn drop(&mut self) {
+                self.0.store(true, std::sync::atomic::Ordering::Release);
+            }
+        }
+        let (_w, r) = simulate(&[], || {
+            let q = sstd::sync::Mutex::new(Vec::<u32>::new());
+            let closed = sstd::sync::atomic::AtomicBool::new(false);
+            sstd::thread::scope(|s| {
+                for _ in 0..2 {
+                    s.spawn(|| loop {
+                        let c = closed.load(std::sync::atomic::Ordering::Acquire);
+                        if q.lock().unwrap().pop().is_some() {
+                            continue;
+                        }
+                        if c {
+                            break;
+                        }
+                        sstd::thread::yield_now();
+                    });
+                }
+                let _f = Flush(&q);
+                let _c = Close(&closed);
+                sstd::thread::yield_now();
+                panic!("listing failed");
+            });
+        });
+        assert!(r.is_err());
     }
 
     #[test]
